@@ -155,6 +155,11 @@ func checkC09(c *Ctx, r *Report) {
 	// ---- C09.e generated identifiers: every use has a declaration with the same spelling
 	checkGeneratedIdentifiers(c, r)
 	checkDeclaredWhereCalled(c, r, "C09.e")
+	// the Go type the templates spell for a parameter or result is the declared type's own string
+	// (a synthesized model name - `PageItem` for `Page[Item]` - is not a Go type of the user's package)
+	ruleFieldFlow(c, r, ffSpec{Clause: "C09.e", Fn: "(core/metadata.TypeUsageMeta).Reduce", Owner: c.W.lookupType("definitions", "TypeMetadata"), Field: "Name",
+		Must: []string{"core/metadata.TypeUsageMeta.Root"}, MustCalls: []string{"(core/metadata.TypeRef).SimpleTypeString"}, MinSinks: 2,
+		Desc: "TypeMetadata.Name = Root.SimpleTypeString()"})
 	checkIterableOnlyInQuery(c, r)
 
 	// ---- C09.g identifiers spelled from annotation values are validated as written
